@@ -91,6 +91,35 @@ func plasmaHistory(c *Ctx, id int) {
 	if !mom() {
 		return
 	}
+	pr := &plasmaRun{c: c, n: n, id: id, inbox: inbox, fail: fail, fakeNonce: map[string][8]byte{}, mined: map[string][]minedNonce{}}
+	// account states for the hand-built first blocks (s_plasma_hand.go): per poor account nothing fused / about one block's
+	// worth / many units / the per-account maximum (and one unit beyond), in rotation over the histories
+	firstBlockAccounts := append(append([]types.Address{}, poor...), g.User9.Address, g.User10.Address)
+	for k, p := range firstBlockAccounts {
+		var units int64
+		switch (id + k) % 4 {
+		case 1:
+			units = []int64{10, 11, 20, 25}[c.R.Intn(4)]
+		case 2:
+			units = []int64{100, 540}[c.R.Intn(2)]
+		case 3:
+			units = []int64{5000, 5001}[c.R.Intn(2)]
+		}
+		if units == 0 {
+			continue
+		}
+		if b, err := n.Submit(&nom.AccountBlock{BlockType: nom.BlockTypeUserSend, Address: rich, ToAddress: types.PlasmaContract, TokenStandard: types.QsrTokenStandard,
+			Amount: new(big.Int).Mul(big.NewInt(units), big.NewInt(g.Zexp)), Data: definition.ABIPlasma.PackMethodPanic(definition.FuseMethodName, p)}); err == nil {
+			fusions = append(fusions, fusion{b.Hash, n.Height()})
+			c.Hit("fuse-initial")
+		}
+	}
+	if !mom() || !mom() {
+		return
+	}
+	for k, p := range firstBlockAccounts {
+		pr.handMatrix(p, id+k, 14)
+	}
 
 	candidate := func(acc types.Address) {
 		frontier := n.Chain().GetFrontierMomentumStore()
@@ -338,6 +367,8 @@ func plasmaHistory(c *Ctx, id int) {
 			if !mom() {
 				return
 			}
+		case x < 53: // hand-built blocks on the account's current frontier (confirmed or unconfirmed predecessors)
+			pr.handMatrix(poor[c.R.Intn(len(poor))], s+id, 8)
 		default: // a burst of 1–6 unconfirmed blocks of one account
 			acc := poor[c.R.Intn(len(poor))]
 			for k := 0; k < 1+c.R.Intn(6); k++ {
